@@ -238,7 +238,8 @@ pub fn run(args: &Args) -> i32 {
     total = total.merge(t1);
 
     // ---- (2) leap-table space x few transition tables
-    let ltimes = [-1i64, 0, 1, M - 1, M, M + 1, 2 * M, i64::MAX - M - 1, i64::MAX - M, i64::MAX - M + 1, i64::MAX];
+    // incl. the most negative values (a difference to a large positive time overflows)
+    let ltimes = [i64::MIN, i64::MIN + M + 1, -1i64, 0, 1, M - 1, M, M + 1, 2 * M, i64::MAX - M - 1, i64::MAX - M, i64::MAX - M + 1, i64::MAX];
     let lcorrs: Vec<i32> = if thorough { vec![-2, -1, 0, 1, 2, i32::MIN, i32::MAX] } else { vec![-2, -1, 0, 1, 2, i32::MIN, i32::MAX] };
     let lalpha: Vec<(i64, i32)> = ltimes.iter().flat_map(|&t| lcorrs.iter().map(move |&c| (t, c))).collect();
     let lseqs = sequences(&lalpha, if thorough { 4 } else { 3 });
@@ -483,7 +484,7 @@ pub fn run(args: &Args) -> i32 {
 
     rec.add(total.evals, total.single_defect);
     rec.digest("zonecons", total.digest);
-    rec.set_rule("small world: all transition sequences of length 0..3 (4) over 5 times x 4 indices with 0..2 types, 5 leap tables and 4-5 rules; all leap sequences of length 0..3 (4) over 11 times x 7 corrections with 4 transition tables; trailing rules differing from the last type in exactly one attribute, DST rule (also with identical / name-only-different types) agreeing/disagreeing around rule transitions, at range ends and at +-2^56..2^62; last transition aligned with a leap record and a rule transition; every designation up to length 7 (9) over 8 symbols x 4 offsets. Oracle: reference validator; owned == borrowed. non-trivial = refusals with exactly one violated condition (error kind compared)");
+    rec.set_rule("small world: all transition sequences of length 0..3 (4) over 5 times x 4 indices with 0..2 types, 5 leap tables and 4-5 rules; all leap sequences of length 0..3 (4) over 13 times x 7 corrections with 4 transition tables; trailing rules differing from the last type in exactly one attribute, DST rule (also with identical / name-only-different types) agreeing/disagreeing around rule transitions, at range ends and at +-2^56..2^62; last transition aligned with a leap record and a rule transition; every designation up to length 7 (9) over 8 symbols x 4 offsets. Oracle: reference validator; owned == borrowed. non-trivial = refusals with exactly one violated condition (error kind compared)");
     rec.set_exhaustive(true);
     for o in ["Ok", "NoLocalTimeType", "InvalidLocalTimeTypeIndex", "InvalidTransition", "InvalidLeapSecond", "InconsistentExtraRule", "OutOfRange"] {
         rec.outcome(o);
